@@ -41,6 +41,7 @@ def gen_cfg(rng, idx):
     if idx % 8 == 5:
         # a full house: every slot of a 16-slot pool taken before the history starts
         cfg.update(tun=CROWD_TUNS[(idx // 8) % len(CROWD_TUNS)], crowd=True)
+    cfg["clock_steps"] = idx % 5 == 2       # histories in which the server's wall clock is set back now and then
     return cfg
 
 
@@ -110,7 +111,8 @@ def run_history(tag, cfg, seed, nops=None):
                 _send_up(H, p, _frame(H, p.mc.tun_ip, o.mc.tun_ip))
                 o.mc.pump(300000, 60000)
     weights = (["join"] * 3 + ["join_same_ip"] * 2 + ["legit"] * 6 + ["down"] * 3 + ["attack"] * 10 + ["login_attack"] * 5 +
-               ["advance"] * 3 + ["raw_stream"] * 1 + ["reuse"] * 2 + ["down_odd"] * 2 + ["raw_shadow"] * 2)
+               ["advance"] * 3 + ["raw_stream"] * 1 + ["reuse"] * 2 + ["down_odd"] * 2 + ["raw_shadow"] * 2 +
+               (["clock_back"] * 2 if cfg.get("clock_steps") else []))
     for _ in range(n):
         if not H.srv.alive() or k.stalled:
             break
@@ -588,6 +590,27 @@ def op_advance(H):
             p.last_act = k.now
 
 
+def op_clock_back(H):
+    """The server's wall clock is set back (NTP step, leap second, an administrator): sessions that were active a moment ago
+    now have a time stamp in the future.  Newcomers arrive right afterwards; the live sessions carry on."""
+    rng = H.rng
+    k = H.k
+    live = [p for p in H.parties if p.stage in ("l", "raw") and _alive(H, p)]
+    for p in live[:4]:
+        p.mc.ping(10000)
+        p.last_act = k.now
+    k.run(k.now + rng.choice([100000, 900000, 1500000]))
+    k.clock_step(rng.choice([1, 2, 3, 5, 10, 30, 59, 61, 3600]))
+    H.clock_steps = getattr(H, "clock_steps", 0) + 1
+    for _ in range(rng.randint(1, 3)):
+        k.run(k.now + rng.choice([10000, 400000, 1100000]))
+        _join(H, rng.choice(["v", "l", "l"]))
+    for p in live[:4]:
+        if H.srv.alive():
+            p.mc.ping(10000)
+            p.last_act = k.now
+
+
 def op_raw_stream(H):
     """A raw-mode session that is busy for longer than the expiry time without ever idling: only raw DATA, no pings,
     a packet every 15-45 s for 70-150 s; then a newcomer asks for a slot."""
@@ -682,4 +705,5 @@ def op_raw_shadow(H):
 
 
 OPS = {"raw_shadow": op_raw_shadow, "join": op_join, "legit": op_legit, "down": op_down, "down_odd": op_down_odd, "attack": op_attack,
-       "login_attack": op_login_attack, "advance": op_advance, "reuse": op_reuse, "join_same_ip": op_join_same_ip, "raw_stream": op_raw_stream}
+       "login_attack": op_login_attack, "advance": op_advance, "reuse": op_reuse, "join_same_ip": op_join_same_ip, "raw_stream": op_raw_stream,
+       "clock_back": op_clock_back}
